@@ -220,7 +220,7 @@ fn run(ctx: &mut Ctx) {
     // handled case-sensitively
     let total_c = ctx.tier.pick(12_000, 200_000);
     let strat_c = move || {
-        (case_strategy(&["cased", "cased", "abc"], false, W_PREFIX, 6, 3, fix), 0u8..4, any::<bool>())
+        (case_strategy(&["cased", "fold-s", "fold-sigma", "fold-misc", "abc"], false, W_PREFIX, 7, 3, fix), 0u8..4, any::<bool>())
             .prop_map(|(mut c, a, x)| {
                 c.cfg.ignore_case = true;
                 c.cfg.verbose = x;
